@@ -78,6 +78,15 @@ _ENGINE_ASSUME = ["the event stream's inbox order is the broadcast order (C01); 
                   "a subscriber stopping between the reachability test and the forward is a race outside the sequential model (it costs one dead letter, then the subscriber is dropped)"]
 
 PROPS = {
+    "C17": dict(lean_modules=["HW.Props.C17"],
+                streams=[dict(name="remote", pkg="remote", test="TestVerifRemote", timeout=2400, timeout_thorough=3400),
+                         dict(name="remotelost", pkg="remote", test="TestVerifRemoteLost", extra_overlay=reg_shim_overlay, timeout=1200)],
+                rule="remote: real engines with real remotes over loopback TCP: order cases (1-6 concurrent sender goroutines x 1-60 messages, some with > 1024 messages to cross the writer batch size, to 1-4 targets on the peer, "
+                     "odd senders attach a sender PID) judged for exactly-once, per sender/target order and sender fidelity; concurrent request/response; peer down (RemoteUnreachableEvent + one dead letter per message) then up on the "
+                     "same address; Start/Stop/dial sequences; remotelost: an established connection is lost and the writer's own watcher goroutine is adopted by the scheduler shim at the registry write lock, "
+                     "pinning the order of 'notify the router' and 'unregister'; non-trivial = >= 2 messages / ops; distinct = distinct inputs",
+                assumptions=["TCP, drpc framing and the dial timers are runtime behaviour the model assumes (ordered reliable stream while the connection is up)",
+                             "batch formation by timing is covered by the for-all-splits theorem, not enumerated"]),
     "C08": dict(lean_modules=["HW.Props.C08"], facts=True,
                 streams=[dict(name="tree", pkg="actor", test="TestVerifTree", shrink_key="ops", timeout=2400, timeout_thorough=3400),
                          dict(name="childsched", pkg="actor", test="TestVerifChildSched", shrink_key="sched", extra_overlay=safemap_shim_overlay)],
@@ -329,5 +338,14 @@ MANIFEST_TEXT = {
         design_ref="DESIGN.md section 4, C19",
         note="Trusted: Lean kernel; well-formedness (kind names without '/', distinct hosts, advertised kinds = registered kinds); the remote transport (C15/C17) and request/response (C11) by composition; 'a member that joins later learns all' is covered by the correspondence stream, not by a theorem.",
         technique="Lean 4 invariant over a broadcast round (order-independent delivery) + history-level differential correspondence with replayed arrival order",
+    ),
+    "C17": dict(
+        text="Partial by nature (TCP, drpc, timers are assumed, not modelled). Machine-checked: for every split of the writer's backlog into batches, encode/decode of the batches yields the backlog in order with own targets and senders "
+             "(from C15); per-sender order on the wire implies per-(sender,target) order at each target; the router/writer state machine keeps 'a route without a registered writer has its unreachable notice pending' under all interleavings of "
+             "sends, router steps, dial outcomes and lost connections, hence a later send makes a fresh attempt and no message handled by the router is lost silently; Start/Stop state machine is idempotent. Tied to the code by real "
+             "engines over loopback TCP (order, request/response, peer down/up, Start/Stop/dial) and by a forced interleaving of connection loss against the real registry.",
+        design_ref="DESIGN.md section 4, C17",
+        note="Partial: ordered reliable stream while the connection is up, dial back-off timing and goroutine scheduling inside drpc are assumed; messages already inside a connection when it drops are outside the property.",
+        technique="Lean 4 composition theorems (C15 + C01) + router state-machine invariant + system-level differential correspondence over loopback TCP",
     ),
 }
